@@ -203,6 +203,17 @@ class World:
                         self.probe("workload_error_caught")
                     continue
                 raise
+            except Exception as e:
+                # An exception nobody planned for. Raised by the system under test (innermost frame in torch or
+                # quanto): an outcome of the operation, recorded and counted. Raised by qsim's own code: a harness
+                # bug, which must fail the run (HARNESS-ERROR), never pass silently.
+                tb = traceback.extract_tb(e.__traceback__)
+                inner = tb[-1].filename if tb else ""
+                if os.sep + "qsim" + os.sep in inner:
+                    raise
+                outcome = "sut-error:" + type(e).__name__
+                self.probe("unplanned_sut_error:" + op["op"] + ":" + type(e).__name__)
+                self.log.add("sut-error", op["op"], type(e).__name__, str(e)[:120])
             self.note(op, before, outcome, p)
 
     def note(self, op, before, outcome, p):
